@@ -73,6 +73,8 @@ add("alloc_NM_ae000", NM, sim_alloc(NM, cfg(0, 0, 0, ae=1)), NSETS[3], packs=("a
 add("alloc_TM_ae111", TM, sim_alloc(TM, cfg(1, 1, 1, ae=1, soccc=1)), NSETS[4], packs=("alloc",))
 add("alloc_MO_010", MO, sim_alloc(MO, cfg(0, 1, 0)), NSETS[5], packs=("alloc",))
 add("alloc_NM_cm", NM, sim_alloc(NM, cfg(cm=1)), NSETS[0], packs=("alloc", "twin"))
+add("alloc_NC_cm", NC, sim_alloc(NC, cfg(cm=1)), NSETS[2], packs=("alloc",))
+add("alloc_TM_cm", TM, sim_alloc(TM, cfg(0, 1, 0, cm=1)), NSETS[5], packs=("alloc",))
 add("alloc_NM_hint", NM, sim_alloc(NM, cfg(pocma=1, hint=1)), NSETS[4], packs=("alloc",))
 add("alloc_CO_101", CO, sim_alloc(CO, cfg(1, 0, 1)), NSETS[1], packs=("alloc",))
 add("alloc_MN_011", MN, sim_alloc(MN, cfg(0, 1, 1, soccc=1)), NSETS[2], packs=("alloc",))
